@@ -245,6 +245,8 @@ def doc_nodes(t):
 
 # ------------------------------------------------------------------ patterns and use expressions
 def gen_pred(r):
+    if r.chance(1, 10):
+        return r.choice(PRED_QNAME)
     if r.chance(1, 3):      # positional predicate (position among the siblings passing the node test)
         return r.choice(["[1]", "[2]", "[last()]", "[1]", "[3]"])
     k = r.below(4)
@@ -312,7 +314,23 @@ USE_SCALARS = ["string(@x)", "string(@y)", "name()", "'u'", "count(*)", "count(@
                "string(text())", "position()", "last()", "concat(name(),position())", "concat(last(),'-',string(@x))"]
 
 
+# `use` / match-predicate expressions whose evaluation resolves *another* QName at run time (decimal-format name, function
+# or element name, system property name).  XSLT: key(name, …) looks the table up by the expanded name it is given, whatever
+# the use expressions compute while the table is built.
+USE_QNAME = ["format-number(count(*),'0','df')", "format-number(count(@*),'0','q:df')", "function-available('concat')",
+             "element-available('xsl:if')", "system-property('xsl:version')", "concat(name(),function-available('concat'))",
+             "concat(string(@x),system-property('xsl:version'))", "format-number(count(.//b),'0','df')"]
+PRED_QNAME = ["[function-available('concat')]", "[element-available('xsl:if')]"]
+
+
+def resolves_qname(text):
+    """does evaluating this use / match text resolve a QName at run time?"""
+    return any(f in text for f in ("format-number(", "function-available(", "element-available("))
+
+
 def gen_use(r, allow_ns=True):
+    if r.chance(1, 8):
+        return r.choice(USE_QNAME)
     if allow_ns and r.chance(1, 14):
         # namespace nodes as key values (their string value is the namespace URI); not with result tree fragments, whose
         # elements also carry the stylesheet's namespaces
@@ -321,7 +339,8 @@ def gen_use(r, allow_ns=True):
 
 
 def use_is_path(u):
-    return not (u.startswith("concat(") or u in ("name()", "position()", "last()") or u.startswith("'") or u.startswith("string(")
+    return not (u.startswith("concat(") or u in ("name()", "position()", "last()") or u.startswith("format-number(")
+                or u.startswith("function-available(") or u.startswith("element-available(") or u.startswith("system-property(") or u.startswith("'") or u.startswith("string(")
                 or u.startswith("count(") or "='" in u)
 
 
@@ -511,6 +530,7 @@ def render_sheet(case, sid):
         out.append('<xsl:key name="%s" match="%s" use="%s"/>' % (lex_name(None, name, i + 1), pat, use))
     if sid == 0:
         out.append('<xsl:output method="text"/>')
+        out.append('<xsl:decimal-format name="df"/><xsl:decimal-format name="q:df"/>')
         if case.get("strip"):
             out.append('<xsl:strip-space elements="%s"/>' % " ".join(case["strip"]))
             if case.get("preserve"):
